@@ -1,11 +1,283 @@
 import SigModel.Driver.Loop
+import SigModel.Model.Bus
+import SigModel.Spec.Bus
 
-/-! Driver for C20 — stub (no model yet). -/
+/-!
+Driver for C20.
+
+Deterministic schedules (`mode loop` = real loopback client, every op followed by a full drain;
+`mode own` = harness-owned client, `disp` dispatches one queued message): the model is run with an eager
+scheduler (every enabled internal action is taken, in a fixed order, until none is enabled or the only
+enabled one is a callback of a held listener) and its deliveries are printed per op.
+The implementation's deliveries are accumulated into a history which `admitsSafe` judges after every op
+and `admits` at `end`.
+
+Concurrent runs (`conc …`): the implementation line carries the whole recorded history; only judged.
+-/
 namespace SigModel.Driver.C20
+open SigModel.Proto SigModel.Bus
 
 structure St where
-  dummy : Unit := ()
+  model : State := State.init
+  own : Bool := false
+  held : List Nat := []
+  rereg : List (Nat × Nat) := []
+  reported : Nat := 0
+  hist : Hist := {}
+  hclk : Nat := 0
+  /-- subject of the n-th publication of this case -/
+  pubSubj : List Nat := []
+  bad : Bool := false
 
-def step (st : St) (_op _impl : List String) : St × String × String := (st, "bad-op", "na")
+/-- one internal action of the eager scheduler for subscriber `k` -/
+def subAct (d : St) (k : Nat) : Option St :=
+  let st := d.model
+  let b := st.sub k
+  match take st k with
+  | some st' => some { d with model := st' }
+  | none =>
+  match snap st k with
+  | some st' => some { d with model := st' }
+  | none =>
+  match b.pending with
+  | some l =>
+    if d.held.contains l then none else
+    match call st k with
+    | some st' =>
+      if d.rereg.contains (l, b.subj) then
+        -- the callback unregisters and registers its own listener again
+        some { d with model := register (unregister st' l b.subj) l b.subj,
+                      rereg := d.rereg.erase (l, b.subj) }
+      else some { d with model := st' }
+    | none => none
+  | none =>
+  match b.tovisit with
+  | l :: _ =>
+    match pick st k l with
+    | some st' => some { d with model := st' }
+    | none => none
+  | [] =>
+  match finish st k with
+  | some st' => some { d with model := st' }
+  | none =>
+  match Bus.exit st k with
+  | some st' => some { d with model := st' }
+  | none => none
+
+def firstSub (d : St) : List Nat → Option St
+  | [] => none
+  | k :: ks => match subAct d k with
+    | some d' => some d'
+    | none => firstSub d ks
+
+def internal (d : St) : Option St :=
+  let viaClient : Option St :=
+    if d.own then none else
+    match send d.model with
+    | some st' => some { d with model := st' }
+    | none => match dispatch d.model with
+      | some st' => some { d with model := st' }
+      | none => none
+  match viaClient with
+  | some d' => some d'
+  | none => firstSub d (List.range d.model.nsubs)
+
+def settle : Nat → St → St
+  | 0, d => d
+  | n+1, d => match internal d with
+    | some d' => settle n d'
+    | none => d
+
+def sendAll : Nat → State → State
+  | 0, st => st
+  | n+1, st => match send st with
+    | some st' => sendAll n st'
+    | none => st
+
+/-- own mode: dispatch one message to all channels -/
+def dispOne (d : St) : St :=
+  match dispatch d.model with
+  | some st' => { d with model := sendAll (st'.nsubs + 1) st' }
+  | none => d
+
+def drainOwn : Nat → St → St
+  | 0, d => d
+  | n+1, d =>
+    if d.model.disp < d.model.log.length then drainOwn n (settle 100000 (dispOne d)) else d
+
+/-- insertion into a list of (listener, deliveries) groups kept sorted by listener -/
+def addDelivery (l : Nat) (x : String) : List (Nat × List String) → List (Nat × List String)
+  | [] => [(l, [x])]
+  | (l', xs) :: rest =>
+    if l = l' then (l', xs ++ [x]) :: rest
+    else if l < l' then (l, [x]) :: (l', xs) :: rest
+    else (l', xs) :: addDelivery l x rest
+
+def showDeliveries (st : State) (rs : List RecvEv) : String :=
+  let groups := rs.foldl (fun acc r =>
+    addDelivery r.l (toString r.i ++ "/" ++ toString ((st.subjOf r.i).getD 0)) acc) []
+  joinToks (groups.map fun (l, xs) => toString l ++ ":" ++ ",".intercalate xs)
+
+def report (d : St) : St × String :=
+  let new := d.model.recvs.drop d.reported
+  let out := if new.isEmpty then "ok" else "ok " ++ showDeliveries d.model new
+  ({ d with reported := d.model.recvs.length }, out)
+
+/-! ### parsing the implementation's deliveries -/
+
+def parseDel (l : Nat) (tok : String) : Option (Nat × Nat × Nat) :=
+  match tok.splitOn "/" with
+  | [i, s] => do some (l, ← toNat? i, ← toNat? s)
+  | _ => none
+
+def parseGroup (tok : String) : Option (List (Nat × Nat × Nat)) :=
+  match tok.splitOn ":" with
+  | [l, xs] => do
+    let l ← toNat? l
+    (xs.splitOn ",").mapM (parseDel l)
+  | _ => none
+
+def parseImplDeliveries : List String → Option (List (Nat × Nat × Nat))
+  | "ok" :: groups => do
+    let gs ← groups.filter (fun g => g ≠ "complete" && g ≠ "partial") |>.mapM parseGroup
+    some gs.flatten
+  | _ => none
+
+/-- append the implementation's deliveries of this op to the judged history -/
+def observe (d : St) (impl : List String) : St :=
+  match parseImplDeliveries impl with
+  | none => { d with bad := d.bad || !impl.isEmpty }
+  | some ds =>
+    let (h, c) := ds.foldl (fun (hc : Hist × Nat) (x : Nat × Nat × Nat) =>
+      ({ hc.1 with recvs := hc.1.recvs ++ [{ l := x.1, idx := x.2.1, s := x.2.2, t := hc.2 }] }, hc.2 + 1))
+      (d.hist, d.hclk)
+    { d with hist := h, hclk := c }
+
+def verdictSafe (d : St) : String :=
+  if d.bad then "violated:unparsable-observation" else judge d.hist false
+
+/-! ### recorded concurrent history -/
+
+structure Open where
+  c : Nat
+  kind : String
+  l : Nat
+  s : Nat
+  ts : Nat
+
+def parseEv (ev : String) : List String := ev.splitOn ","
+
+def histOfEvents (evs : List String) : Option Hist := do
+  let mut h : Hist := {}
+  let mut opn : List Open := []
+  let mut t := 0
+  for ev in evs do
+    match parseEv ev with
+    | ["rs", c, l, s] => opn := { c := ← toNat? c, kind := "r", l := ← toNat? l, s := ← toNat? s, ts := t } :: opn
+    | ["us", c, l, s] => opn := { c := ← toNat? c, kind := "u", l := ← toNat? l, s := ← toNat? s, ts := t } :: opn
+    | ["ps", c, s] => opn := { c := ← toNat? c, kind := "p", l := 0, s := ← toNat? s, ts := t } :: opn
+    | ["re", c] =>
+      let c ← toNat? c
+      let o ← opn.find? (fun o => o.c == c && o.kind == "r")
+      h := { h with regs := h.regs ++ [{ l := o.l, s := o.s, ts := o.ts, te := t }] }
+      opn := opn.filter (fun o => o.c != c)
+    | ["ue", c] =>
+      let c ← toNat? c
+      let o ← opn.find? (fun o => o.c == c && o.kind == "u")
+      h := { h with unregs := h.unregs ++ [{ l := o.l, s := o.s, ts := o.ts, te := t }] }
+      opn := opn.filter (fun o => o.c != c)
+    | ["pe", c, idx] =>
+      let c ← toNat? c
+      let o ← opn.find? (fun o => o.c == c && o.kind == "p")
+      h := { h with pubs := h.pubs ++ [{ s := o.s, idx := ← toNat? idx, ts := o.ts, te := t }] }
+      opn := opn.filter (fun o => o.c != c)
+    | ["rv", l, idx, s] =>
+      h := { h with recvs := h.recvs ++ [{ l := ← toNat? l, idx := ← toNat? idx, s := ← toNat? s, t := t }] }
+    | _ => none
+    t := t + 1
+  -- every call has returned when the recording ends
+  if opn.isEmpty then some h else none
+
+def histSummary (h : Hist) : String :=
+  s!"hist regs={h.regs.length} unregs={h.unregs.length} pubs={h.pubs.length} recvs={h.recvs.length}"
+
+/-! ### one op -/
+
+def tick (d : St) : St × Nat := ({ d with hclk := d.hclk + 1 }, d.hclk)
+
+def finishOp (d : St) (impl : List String) : St × String × String :=
+  let d := settle 100000 d
+  let (d, out) := report d
+  let d := observe d impl
+  let (d, _) := tick d
+  (d, out, verdictSafe d)
+
+def step (d : St) (op impl : List String) : St × String × String :=
+  match op with
+  | ["mode", m] => ({ d with own := m == "own" }, "ok", "na")
+  | "reg" :: l :: s :: _ =>
+    match toNat? l, toNat? s with
+    | some l, some s =>
+      let (d, ts) := tick d
+      let d := { d with model := register d.model l s }
+      let (d, out, _) := finishOp d impl
+      let d := { d with hist := { d.hist with regs := d.hist.regs ++ [{ l := l, s := s, ts := ts, te := d.hclk - 1 }] } }
+      (d, out, verdictSafe d)
+    | _, _ => (d, "bad-op", "na")
+  | "unreg" :: l :: s :: _ =>
+    match toNat? l, toNat? s with
+    | some l, some s =>
+      let (d, ts) := tick d
+      let d := { d with model := unregister d.model l s }
+      let (d, out, _) := finishOp d impl
+      let d := { d with hist := { d.hist with unregs := d.hist.unregs ++ [{ l := l, s := s, ts := ts, te := d.hclk - 1 }] } }
+      (d, out, verdictSafe d)
+    | _, _ => (d, "bad-op", "na")
+  | "pub" :: s :: _ =>
+    match toNat? s with
+    | some s =>
+      let (d, ts) := tick d
+      let idx := d.model.log.length
+      let d := { d with model := publish d.model s }
+      -- the call has returned before any delivery is looked at
+      let (d, te) := tick d
+      let d := { d with hist := { d.hist with pubs := d.hist.pubs ++ [{ s := s, idx := idx, ts := ts, te := te }] } }
+      finishOp d impl
+    | none => (d, "bad-op", "na")
+  | ["disp"] => finishOp (if d.own then dispOne d else d) impl
+  | ["drain"] => finishOp (if d.own then drainOwn 100000 (settle 100000 d) else d) impl
+  | ["hold", l] =>
+    match toNat? l with
+    | some l => finishOp { d with held := l :: d.held } impl
+    | none => (d, "bad-op", "na")
+  | ["release", l] =>
+    match toNat? l with
+    | some l => finishOp { d with held := d.held.filter (· ≠ l) } impl
+    | none => (d, "bad-op", "na")
+  | "rereg" :: l :: s :: _ =>
+    match toNat? l, toNat? s with
+    | some l, some s => finishOp { d with rereg := (l, s) :: d.rereg } impl
+    | _, _ => (d, "bad-op", "na")
+  | ["end"] =>
+    let d := settle 100000 d
+    let (d, out) := report d
+    let d := observe d impl
+    let quiet := d.model.disp == d.model.log.length && d.model.sending.isEmpty &&
+      (List.range d.model.nsubs).all fun k =>
+        let b := d.model.sub k
+        !b.attached || (b.chan.isEmpty && b.cur.isNone)
+    let complete := quiet && !d.model.dropped && d.held.isEmpty
+    let out := (if out == "ok" then "ok" else out) ++ (if complete then " complete" else " partial")
+    -- the implementation's own claim decides which clauses are judged
+    let implComplete := impl.contains "complete"
+    (d, out, if d.bad then "violated:unparsable-observation" else judge d.hist implComplete)
+  | "conc" :: _ =>
+    match impl with
+    | ["H", c, evs] =>
+      match histOfEvents (evs.splitOn ";") with
+      | some h => (d, "conc", judge h (c == "1"))
+      | none => (d, "conc", "violated:unparsable-history")
+    | _ => (d, "conc", "na")
+  | _ => (d, "bad-op", "na")
 
 end SigModel.Driver.C20
